@@ -25,6 +25,12 @@
 (*                                                                          *)
 (* The same runs check the specification's algebraic identities as          *)
 (* invariants (Identities).                                                 *)
+(*                                                                          *)
+(* Every prediction is the specification's (Ev with xf = {}).  Field "dev"  *)
+(* of a case lists, per document, the known-deviation classes of the        *)
+(* implementation (KnownDeviations; notes/C13.md) that the (expression,     *)
+(* document) falls into - classification only, used by the driver to match  *)
+(* a mismatch against /verif/known_findings.jsonl.                          *)
 EXTENDS Jmespath, Json
 CONSTANTS Mode, MaxDepth, W1, W2, W3, SlRange, EmitAst,
           KnownDeviations    \* names of the suspected defects of the implementation (notes/C13.md) that cases are
